@@ -5,19 +5,21 @@ Origin-free (absolute names) throughout: this is the "equal to the original when
 half of the property. -/
 namespace Model
 
-/-- a name equal to `full` up to ASCII case is readable at `pos` in `W` and occupies `len` octets there -/
-def NameAt (W : Bytes) (pos len : Nat) (full : Name) : Prop :=
-  ∃ ls, Dec W pos pos ls (pos + len) ∧ NameEqv (ls ++ [[]]) full
+variable {Rs : RelSpec}
 
-theorem NameAt.mono {W pos len full} (h : NameAt W pos len full) (ext : Bytes) : NameAt (W ++ ext) pos len full := by
+/-- a name equal to `full` up to ASCII case is readable at `pos` in `W` and occupies `len` octets there -/
+def NameAt (Rs : RelSpec) (W : Bytes) (pos len : Nat) (full : Name) : Prop :=
+  ∃ ls, Dec W pos pos ls (pos + len) ∧ Rs.R (ls ++ [[]]) full
+
+theorem NameAt.mono {W pos len full} (h : NameAt Rs W pos len full) (ext : Bytes) : NameAt Rs (W ++ ext) pos len full := by
   obtain ⟨ls, hd, hr⟩ := h
   exact ⟨ls, hd.mono ext, hr⟩
 
-theorem getName_of_NameAt {W : Bytes} {pos len : Nat} {full : Name} (h : NameAt W pos len full) (hwf : WfName full)
+theorem getName_of_NameAt Rs {W : Bytes} {pos len : Nat} {full : Name} (h : NameAt Rs W pos len full) (hwf : WfName full)
     (endp : Nat) (he : pos + len ≤ endp) (hw : endp ≤ W.length) :
-    ∃ n', getName W endp pos = .ok (n', pos + len) ∧ NameEqv n' full := by
+    ∃ n', getName W endp pos = .ok (n', pos + len) ∧ Rs.R n' full := by
   obtain ⟨ls, hd, hr⟩ := h
-  exact ⟨ls ++ [[]], getName_of_Dec hd endp he hw (wfName_of_lowerEq _ _ hr hwf), hr⟩
+  exact ⟨ls ++ [[]], getName_of_Dec hd endp he hw (wfName_of_lowerEq _ _ (Rs.toEqv hr) hwf), hr⟩
 
 theorem wireName_none {n full : Name} (h : wireName n none = some full) : full = n ∧ isAbs n = true := by
   unfold wireName at h
@@ -26,37 +28,37 @@ theorem wireName_none {n full : Name} (h : wireName n none = some full) : full =
   · simp at h
 
 /-- writing a name (no origin): table stays sound and the name is readable where it was written -/
-theorem nameExt_at (A : Bytes) (t : CTable) (n : Name) (q : Bytes × CTable) (hok : NameOk none n)
-    (hs : TableSound NameEqv A t) (h : nameExt A.length t n none = some q) :
-    TableSound NameEqv (A ++ q.1) (t ++ q.2) ∧ NameAt (A ++ q.1) A.length q.1.length n ∧ WfName n := by
-  obtain ⟨full, hw, hwf, habs⟩ := hok
+theorem nameExt_at (A : Bytes) (t : CTable) (n : Name) (q : Bytes × CTable) (hok : NameOk Rs none n)
+    (hs : TableSound Rs.R A t) (h : nameExt A.length t n none = some q) :
+    TableSound Rs.R (A ++ q.1) (t ++ q.2) ∧ NameAt Rs (A ++ q.1) A.length q.1.length n ∧ WfName n := by
+  obtain ⟨full, hw, hwf, habs, hg⟩ := hok
   obtain ⟨rfl, _⟩ := wireName_none hw
   unfold nameExt at h
   rw [hw] at h
   simp at h
   rw [← h]
-  obtain ⟨s1, ls, hd, hr⟩ := cLoop_sound A t full hwf habs hs
+  obtain ⟨s1, ls, hd, hr⟩ := Rs.sound A t full hwf habs hg hs
   exact ⟨s1, ⟨ls, hd, hr⟩, hwf⟩
 
 /-! ### similarity of parsed and original values: equal except for the ASCII case of compressed names -/
 
-def RData.sim : RData → RData → Prop
+def RData.sim (Rs : RelSpec) : RData → RData → Prop
   | .raw a, .raw b => a = b
-  | .name1 a, .name1 b => NameEqv a b
-  | .mx p a, .mx q b => p = q ∧ NameEqv a b
+  | .name1 a, .name1 b => Rs.R a b
+  | .mx p a, .mx q b => p = q ∧ Rs.R a b
   | .soa m r a b c d e, .soa m' r' a' b' c' d' e' =>
-    NameEqv m m' ∧ NameEqv r r' ∧ a = a' ∧ b = b' ∧ c = c' ∧ d = d' ∧ e = e'
+    Rs.R m m' ∧ Rs.R r r' ∧ a = a' ∧ b = b' ∧ c = c' ∧ d = d' ∧ e = e'
   | _, _ => False
 
 /-- field ranges of an rdata (what `struct.pack` accepts) and legality of its names -/
-def RData.valid : RData → Prop
+def RData.valid (Rs : RelSpec) : RData → Prop
   | .raw _ => True
-  | .name1 n => NameOk none n
-  | .mx p n => p < 65536 ∧ NameOk none n
+  | .name1 n => NameOk Rs none n
+  | .mx p n => p < 65536 ∧ NameOk Rs none n
   | .soa m r a b c d e =>
-    NameOk none m ∧ NameOk none r ∧ a < 4294967296 ∧ b < 4294967296 ∧ c < 4294967296 ∧ d < 4294967296 ∧ e < 4294967296
+    NameOk Rs none m ∧ NameOk Rs none r ∧ a < 4294967296 ∧ b < 4294967296 ∧ c < 4294967296 ∧ d < 4294967296 ∧ e < 4294967296
 
-theorem RData.valid_namesOk {rd : RData} (h : rd.valid) : rd.namesOk none := by
+theorem RData.valid_namesOk {rd : RData} (h : rd.valid Rs) : rd.namesOk Rs none := by
   cases rd with
   | raw b => trivial
   | name1 n => exact h
@@ -69,9 +71,9 @@ theorem slice_at (W X Y Z : Bytes) (hW : W = X ++ Y ++ Z) (i n : Nat) (hi : i = 
 
 /-- the RDATA written by the renderer is parsed back (inside `restrict_to` = up to the end of what was written) -/
 theorem rdataExt_parse (A : Bytes) (t : CTable) (rd : RData) (q : Bytes × CTable) (post : Bytes) (rdtype : Nat)
-    (hshape : shapeOf rdtype = rd.shape) (hv : rd.valid) (hs : TableSound NameEqv A t)
+    (hshape : shapeOf rdtype = rd.shape) (hv : rd.valid Rs) (hs : TableSound Rs.R A t)
     (h : rdataExt A.length t none rd = some q) :
-    ∃ rd', parseRData (A ++ q.1 ++ post) A.length (A.length + q.1.length) none rdtype = .ok rd' ∧ rd'.sim rd := by
+    ∃ rd', parseRData (A ++ q.1 ++ post) A.length (A.length + q.1.length) none rdtype = .ok rd' ∧ rd'.sim Rs rd := by
   obtain ⟨qe, qn⟩ := q
   have hlenW : A.length + qe.length ≤ (A ++ qe ++ post).length := by simp
   dsimp only at *
@@ -88,7 +90,7 @@ theorem rdataExt_parse (A : Bytes) (t : CTable) (rd : RData) (q : Bytes × CTabl
   | name1 n =>
     simp only [rdataExt] at h
     obtain ⟨_, hat, hwf⟩ := nameExt_at A t n (qe, qn) hv hs h
-    obtain ⟨n', hg, hn'⟩ := getName_of_NameAt (hat.mono post) hwf (A.length + qe.length) (Nat.le_refl _) hlenW
+    obtain ⟨n', hg, hn'⟩ := getName_of_NameAt Rs (hat.mono post) hwf (A.length + qe.length) (Nat.le_refl _) hlenW
     refine ⟨.name1 n', ?_, hn'⟩
     unfold parseRData
     rw [hshape]
@@ -106,7 +108,7 @@ theorem rdataExt_parse (A : Bytes) (t : CTable) (rd : RData) (q : Bytes × CTabl
       have hat' := hat.mono post
       rw [hl] at hat'
       have hlenW' : A.length + 2 + q1.1.length ≤ (A ++ u16 p ++ q1.1 ++ post).length := by simp [u16]; omega
-      obtain ⟨n', hg, hn'⟩ := getName_of_NameAt hat' hwf (A.length + 2 + q1.1.length) (Nat.le_refl _) hlenW'
+      obtain ⟨n', hg, hn'⟩ := getName_of_NameAt Rs hat' hwf (A.length + 2 + q1.1.length) (Nat.le_refl _) hlenW'
       refine ⟨.mx p n', ?_, rfl, hn'⟩
       unfold parseRData
       rw [hshape]
@@ -150,9 +152,9 @@ theorem rdataExt_parse (A : Bytes) (t : CTable) (rd : RData) (q : Bytes × CTabl
         have hWlen : (A ++ (q1.1 ++ q2.1 ++ u32 a ++ u32 b ++ u32 c ++ u32 d ++ u32 e) ++ post).length
             = A.length + q1.1.length + q2.1.length + 20 + post.length := by
           simp [u32]; omega
-        obtain ⟨m', hg1, hm'⟩ := getName_of_NameAt hat1' hwf1 (A.length + (q1.1.length + q2.1.length + 20))
+        obtain ⟨m', hg1, hm'⟩ := getName_of_NameAt Rs hat1' hwf1 (A.length + (q1.1.length + q2.1.length + 20))
           (by omega) (by rw [hWlen]; omega)
-        obtain ⟨r', hg2, hr'⟩ := getName_of_NameAt hat2' hwf2 (A.length + (q1.1.length + q2.1.length + 20))
+        obtain ⟨r', hg2, hr'⟩ := getName_of_NameAt Rs hat2' hwf2 (A.length + (q1.1.length + q2.1.length + 20))
           (by omega) (by rw [hWlen]; omega)
         refine ⟨.soa m' r' a b c d e, ?_, hm', hr', rfl, rfl, rfl, rfl, rfl⟩
         unfold parseRData
@@ -194,11 +196,11 @@ theorem ttlClamp_lt : ConstsC03.ttlClampAbove < 4294967296 := by decide
 and handed to `find_rrset`/`add` with the owner up to ASCII case and the RDATA up to the case of its names -/
 theorem parseRR_of_rrExt (cfg : PCfg) (horg : cfg.origin = none) (A post : Bytes) (t : CTable) (owner : Name)
     (rdtype rdclass ttl : Nat) (rd : RData) (q : Bytes × CTable) (sec count i : Nat) (st : PState)
-    (hcur : st.cur = A.length) (hs : TableSound NameEqv A t) (hown : NameOk none owner) (hv : rd.valid)
+    (hcur : st.cur = A.length) (hs : TableSound Rs.R A t) (hown : NameOk Rs none owner) (hv : rd.valid Rs)
     (hshape : shapeOf rdtype = rd.shape) (ht : rdtype < 65536) (hc : rdclass < 65536)
     (httl : ttl ≤ ConstsC03.ttlClampAbove) (hns : rdtype ≠ ConstsC03.typeOPT ∧ rdtype ≠ ConstsC03.typeTSIG)
     (h : rrExt owner rdtype rdclass ttl none A.length t rd = .ok q) :
-    ∃ owner' rd', NameEqv owner' owner ∧ rd'.sim rd ∧
+    ∃ owner' rd', Rs.R owner' owner ∧ rd'.sim Rs rd ∧
       parseRR cfg false (A ++ q.1 ++ post) sec count i st =
         .ok ({ st with cur := A.length + q.1.length }.setSection sec
           (sectionAdd (st.section sec) owner' rdclass rdtype (rdCovers rdtype rd') none cfg.oneRRPerRRset
@@ -232,7 +234,7 @@ theorem parseRR_of_rrExt (cfg : PCfg) (horg : cfg.origin = none) (A post : Bytes
           rw [hW2]; simp [hhdr]; omega
         have hat' := hat.mono (hdr ++ q3.1 ++ post)
         rw [← hW1] at hat'
-        obtain ⟨owner', hg, hown'⟩ := getName_of_NameAt hat' hwf _ (by rw [hlW]; omega) (Nat.le_refl _)
+        obtain ⟨owner', hg, hown'⟩ := getName_of_NameAt Rs hat' hwf _ (by rw [hlW]; omega) (Nat.le_refl _)
         -- the RDATA
         have hlA' : (A ++ q1.1 ++ hdr).length = A.length + q1.1.length + 10 := by simp [hhdr]; omega
         obtain ⟨rd', hprd, hsim⟩ := rdataExt_parse (A ++ q1.1 ++ hdr) (t ++ q1.2) rd q3 post rdtype hshape hv
